@@ -72,6 +72,9 @@ Explained(e) ==
     \* thread shortage (the address space of a child process limited so that worker threads cannot be created): the call may
     \* fail (panic: no value) - but a value that IS returned equals the sequential product bit for bit (exact integer data)
     [] e.op = "pardot_s" -> ~e.returned \/ e.equal_bits
+    \* a long vector of general data, `reps` calls under one configuration: ONE bit pattern (the partition and the order of the
+    \* additions may not depend on the schedule), equal to the sequential product up to reassociation
+    [] e.op = "pardot_r" -> ~e.panic /\ WellFormed(e) /\ e.reps >= 2 /\ e.distinct = 1 /\ e.units <= 8 /\ e.uref <= 8
     [] OTHER -> FALSE
 
 Init == l = 1 /\ TLCSet(1, 0)
